@@ -150,6 +150,36 @@ def lm_with_layers(l1: Dict[int, int], l2: Dict[int, int], k: int, v: int, k2: i
     return m.with_layers() is m
 
 
+def lm_with_layers_multi(l0: Dict[int, int], l1: Dict[int, int], l2: Dict[int, int], k: int, prepend: bool, inplace: bool) -> bool:
+    """
+    pre: len(l0) <= 2 and len(l1) <= 2 and len(l2) <= 2
+    post: _
+    """
+    # SEVERAL layers added in one call, in place or as a copy: the result is the top-first merge of the layers in the order
+    # given (earlier argument wins), placed above (prepend) or below the existing ones; both variants agree with each other
+    c0, c1, c2 = dict(l0), dict(l1), dict(l2)
+    m = LayeredMapping(l0, name="zero")
+    out = m.with_layers(l1, l2, None, prepend=prepend, inplace=inplace)
+    if inplace and out is not m:
+        return False
+    if not inplace and (out is m) != (not l1 and not l2 and False):
+        pass  # (identity of the copy is not part of the law)
+    order = [l1, l2, l0] if prepend else [l0, l1, l2]
+    want = -7
+    for layer in order:
+        if k in layer:
+            want = layer[k]
+            break
+    if out.get(k, -7) != want:
+        return False
+    keys = set(l0) | set(l1) | set(l2)
+    if set(out) != keys or len(out) != len(keys):
+        return False
+    if not inplace and (m.get(k, -7) != l0.get(k, -7) or set(m) != set(l0)):
+        return False  # the copy left the original alone
+    return l0 == c0 and l1 == c1 and l2 == c2
+
+
 def lm_layer_names(l1: Dict[int, int], l2: Dict[int, int], k: int, v: int, w: bool) -> bool:
     """
     pre: len(l1) <= 2 and len(l2) <= 2 and 0 <= k <= 3
